@@ -1,5 +1,6 @@
 import LassoModel.Borrow
 import LassoModel.Extracted
+import LassoProofs.Lemmas.Config
 /-
   C20 — resolved strings cannot outlive or be invalidated under their borrower.
 
@@ -72,5 +73,12 @@ theorem static_entry_points_demand_static :
 example : probe [{ owner := .rodeo, name := .resolve, recv := .ref, strArgStatic := none, ret := .static_, isUnsafe := false },
                  { owner := .rodeo, name := .clear, recv := .refMut, strArgStatic := none, ret := .noStr, isUnsafe := false }]
     .rodeo .resolve .clear = some none := by decide
+
+/-- The code this file's theorems are about is the same under every feature configuration: the regenerated
+census of conditional compilation contains import blocks, whole serde impls, optional-dependency impls and
+module declarations only, and no gate inside any function body (`Lemmas/Config.lean`). -/
+theorem same_code_under_every_feature_configuration :
+    (Extracted.cfgGates.all fun g => g.kind != .other) = true ∧ Extracted.bodyGates.isEmpty = true :=
+  Lasso.one_code_base_for_all_configurations
 
 end Lasso.C20
